@@ -334,6 +334,24 @@ def run_c04(tier, seed, replay=None):
         for pm in perms:
             cases.append(mk_case([], ["q", "r", "t"], list(pm), perm_group=grp))
         grp += 1
+    # a weaker multi-pair disequality and a stronger one sharing a pair (posted directly, or derived when an
+    # equality simplifies another multi-pair disequality), with the equalities that decide them, in every order
+    for _ in range(n // 3):
+        a, b, c = rnd.sample([1, 2, 3, 4], 3)
+        fam = rnd.choice([
+            [["neq", ["list", "q", "r"], ["list", a, b]], ["neq", "q", a], ["eq", "q", a]],
+            [["neq", ["list", "q", "r"], ["list", a, b]], ["neq", "q", a], ["eq", "q", a], ["eq", "r", rnd.choice([b, c])]],
+            [["neq", ["list", "q", "r"], ["list", a, b]], ["neq", ["list", "r", "t"], ["list", b, c]], ["eq", "q", a], ["eq", "r", b],
+             ["eq", "t", rnd.choice([a, c])]],
+            [["neq", ["list", "q", "r"], ["list", a, b]], ["neq", ["list", "q", "t"], ["list", a, c]], ["eq", ["list", "r", "t"], ["list", b, c]]],
+            [["neq", ["list", "q", "r"], ["list", a, b]], ["neq", "r", b], ["cond", ["eq", "q", a], ["eq", "q", c]], ["eq", "r", b]],
+        ])
+        perms = list(itertools.permutations(fam))
+        if len(perms) > 10:
+            perms = [perms[0]] + rnd.sample(perms[1:], 9)
+        for pm in perms:
+            cases.append(mk_case([], ["q", "r", "t"], list(pm), perm_group=grp))
+        grp += 1
     # finite-domain programs: every posting order
     for _ in range(n // 2):
         lo, hi = rnd.randint(-2, 0), rnd.randint(1, 3)
@@ -476,7 +494,7 @@ def run_c22(tier, seed, replay=None):
                  rnd.choice([["rel", "ltefd", "q", "r"], ["rel", "plusfd", "q", 1, "r"], ["rel", "diseqfd", "q", "r"]]), ["probe", "c"],
                  rnd.choice([["eq", "q", lo], ["neq", "q", "r"], ["rel", "ltefd", "r", hi - 1]]), ["probe", "end"]]
         cases.append(mk_case([], ["q", "r"], goals, fd=True, mode="bag"))
-    return pcheck.run_check("C22", tier, seed, cases, "exact", oracle_c22, cone=["Proofs/HookProofs.vo", "Proofs/EngineProofs.vo"], replay=replay,
+    return pcheck.run_check("C22", tier, seed, cases, "exact", oracle_c22, cone=["Proofs/HookProofs.vo", "Proofs/HookStream.vo", "Proofs/EngineProofs.vo"], replay=replay,
         rule="programs of ==, !=, conde, fresh and finite-domain constraints run with an instrumented User type; probe goals after the goals and "
              "at the end record, per lineage, the hook counters, the store size and the shape of the last extension; at every probe "
              "#with - #take must equal the store size; lineages are compared with the model's hook log; non-trivial = at least one answer",
